@@ -8,7 +8,7 @@ using namespace vf;
 namespace {
 const uint8_t SIG[] = { '"', '\\', '/', '*', ' ', '\t', '\n', 'a', '1', '{', ':', ',', '\r' };
 const char* GAPS[] = { "", " ", "\t\r\n", "//c\n", "/*c*/", "/* \" */", "// \"\n", " /**/ ", "/***/", "/* * / */", "//\n", "/*\n*/ ",
-    "//c\r,1\n" /* a carriage return does not end a line comment */, "/*\r//*/" };
+    "//c\r,1\n" /* a carriage return does not end a line comment */, "/*\r//*/", "//c\\\n" /* a backslash before the line feed does not continue the comment */ };
 const int NGAPS = sizeof GAPS / sizeof *GAPS;
 const char* STRS[] = { "\"a\"", "\"a b\"", "\"\\\"\"", "\"\\\\\"", "\"a\\\\\"", "\"\\\\\\\"\"", "\"/*x*/\"", "\"//\"", "\" \"", "\"\\\\\\\\\"", "\"\\\"//\\\"\"", "\"\\u0041 \\n\"", "\"*/\"", "\"\xc3\xa9 x /*y*/\"", "\"\\\\\\\" x/\"", "\"a\x7f b\"",
     // literals longer than any block size a bulk copy might use, plain and with escapes late in the literal
